@@ -13,6 +13,7 @@ use num_bigint::BigUint;
 use serde_json::{json, Value};
 
 const CHUNKS: usize = 4;
+const RAW: usize = 200;
 
 struct Target {
     name: String,
@@ -32,8 +33,12 @@ fn n_targets() -> usize {
 }
 const SPECIALS: usize = 3; // kdf, compute_za, termination
 
-pub fn runs_c20(_t: Tier) -> usize {
-    n_targets() * CHUNKS + SPECIALS
+fn samples(t: Tier) -> usize {
+    t.pick(1, 8)
+}
+
+pub fn runs_c20(t: Tier) -> usize {
+    n_targets() * CHUNKS * samples(t) + SPECIALS
 }
 
 /// Build target `ti` in world `w` (set-up ops are executed; they are part of the base schedule).
@@ -56,7 +61,7 @@ fn build_target(p: &mut Prng, w: &mut World, ti: usize) -> Target {
             call: json!({"op":"sm2.verify","impl":"lib","pk":"x.pk","id":Value::Null,"msg":"x.msg","sig":"x.in"}),
             valid: w.slots.get("x.valid").cloned(),
             text: false,
-            max_raw_len: 200,
+            max_raw_len: RAW,
         };
     }
     k -= 1;
@@ -69,7 +74,7 @@ fn build_target(p: &mut Prng, w: &mut World, ti: usize) -> Target {
             call: json!({"op":"sm2.decrypt","impl":"lib","d":"x.d","ct":"x.in","order":order,"comp":comp}),
             valid: w.slots.get("x.valid").cloned(),
             text: false,
-            max_raw_len: 200,
+            max_raw_len: RAW,
         };
     }
     k -= 4;
@@ -81,7 +86,7 @@ fn build_target(p: &mut Prng, w: &mut World, ti: usize) -> Target {
             call: json!({"op":"sm2.decrypt","impl":"lib","d":"x.d","ct":"x.in","order":"C1C3C2","comp":false,"asn1":true}),
             valid: w.slots.get("x.valid").cloned(),
             text: false,
-            max_raw_len: 200,
+            max_raw_len: RAW,
         };
     }
     k -= 1;
@@ -94,7 +99,7 @@ fn build_target(p: &mut Prng, w: &mut World, ti: usize) -> Target {
             call: json!({"op":"doc.pk.read","impl":"lib","enc":enc,"doc":"x.in","fromstr": k == 5 && p.chance(1, 2)}),
             valid: w.slots.get("x.valid").cloned(),
             text: matches!(enc, "hexc" | "hexu" | "spki-pem"),
-            max_raw_len: 200,
+            max_raw_len: RAW,
         };
     }
     k -= 6;
@@ -107,7 +112,7 @@ fn build_target(p: &mut Prng, w: &mut World, ti: usize) -> Target {
             call: json!({"op":"doc.sk.read","impl":"lib","enc":enc,"doc":"x.in"}),
             valid: w.slots.get("x.valid").cloned(),
             text: matches!(enc, "hex" | "pkcs8-pem"),
-            max_raw_len: 200,
+            max_raw_len: RAW,
         };
     }
     k -= 5;
@@ -126,7 +131,7 @@ fn build_target(p: &mut Prng, w: &mut World, ti: usize) -> Target {
             call: json!({"op":"entry.sm4.block","key":"x.key","data":"x.in","dir":dir}),
             valid: Some(p.bytes(16)),
             text: false,
-            max_raw_len: 200,
+            max_raw_len: RAW,
         };
     }
     k -= 2;
@@ -141,7 +146,7 @@ fn build_target(p: &mut Prng, w: &mut World, ti: usize) -> Target {
             call: json!({"op":"entry.sm4.mode","mode":mode,"key":"x.key","data":"x.in","iv":"x.iv","dir":"decrypt"}),
             valid: w.slots.get("x.valid").cloned(),
             text: false,
-            max_raw_len: 200,
+            max_raw_len: RAW,
         };
     }
     k -= 4;
@@ -185,7 +190,7 @@ fn build_target(p: &mut Prng, w: &mut World, ti: usize) -> Target {
             call: json!({"op":"sm9.decrypt","impl":"lib","de":"x.uk","ppube":"x.pub","id":"x.id","ct":"x.in","ref_on_reject":false}),
             valid: w.slots.get("x.valid").cloned(),
             text: false,
-            max_raw_len: 200,
+            max_raw_len: RAW,
         };
     }
     k -= 1;
@@ -276,10 +281,12 @@ fn inputs_for(p: &mut Prng, t: &Target, tier: Tier) -> Vec<Vec<Value>> {
 }
 
 pub fn run_c20(p: &mut Prng, tier: Tier, i: usize, sink: &mut Sink) {
-    let nt = n_targets();
+    let nt = n_targets() * samples(tier);
     if i < nt * CHUNKS {
-        let (ti, chunk) = (i / CHUNKS, i % CHUNKS);
-        let mut sp = sample_prng("C20-target", ti);
+        let (tj, chunk) = (i / CHUNKS, i % CHUNKS);
+        // sample s of target ti (thorough: several valid encodings / key sets per entry point)
+        let (ti, smp) = (tj % n_targets(), tj / n_targets());
+        let mut sp = sample_prng("C20-target", ti + 1000 * smp);
         let mut w = World::new();
         let t = build_target(&mut sp, &mut w, ti);
         let inputs = inputs_for(&mut sp, &t, tier);
